@@ -170,6 +170,7 @@ type genCtx struct {
 	budget  int
 	big     bool
 	badLink bool
+	special bool
 	seeds   []uint64 // content seeds to draw duplicates from
 }
 
@@ -183,12 +184,19 @@ func (g *genCtx) file() *Node {
 		g.seeds = append(g.seeds, seed)
 	}
 	ln := genSize(common.NewRand(seed), g.big) // size is a function of the seed: equal seeds = equal bytes
-	return &Node{Kind: "f", Mode: common.Pick(r, fileModes), Mtime: genTime(r), Mtime2: genTime(r), Seed: seed, Len: ln}
+	mode := common.Pick(r, fileModes)
+	if g.special && r.Chance(1, 3) {
+		mode |= common.Pick(r, []uint32{0o4000, 0o2000, 0o1000, 0o6000, 0o7000})
+	}
+	return &Node{Kind: "f", Mode: mode, Mtime: genTime(r), Mtime2: genTime(r), Seed: seed, Len: ln}
 }
 
 func (g *genCtx) dir(depth int) *Node {
 	r := g.r
 	d := &Node{Kind: "d", Mode: common.Pick(r, dirModes), Mtime: genTime(r), Mtime2: genTime(r)}
+	if g.special && r.Chance(1, 3) {
+		d.Mode |= 0o1000 // sticky; setuid/setgid directories are not explored (mkdir(2) drops them)
+	}
 	n := r.Intn(6)
 	if depth == 0 && n == 0 && r.Chance(2, 3) {
 		n = 1 + r.Intn(4)
@@ -288,7 +296,7 @@ func (g *genCtx) fillLinks(root *Node) {
 }
 
 func genTree(r *common.Rand, big, badLink bool) *Node {
-	g := &genCtx{r: r, budget: 4 + r.Intn(28), big: big, badLink: badLink}
+	g := &genCtx{r: r, budget: 4 + r.Intn(40), big: big, badLink: badLink, special: r.Chance(1, 6)}
 	root := g.dir(0)
 	g.fillLinks(root)
 	return root
@@ -309,7 +317,7 @@ func genScenario(r *common.Rand, idx int) *Scenario {
 	sc.ReproPair = r.Chance(1, 2)
 	big := idx%16 == 3
 	bad := r.Chance(1, 10)
-	nItems := 1 + r.Intn(3)
+	nItems := 1 + r.Intn(4)
 	used := map[string]bool{}
 	var trees []*Node
 	for i := 0; i < nItems; i++ {
@@ -327,12 +335,12 @@ func genScenario(r *common.Rand, idx int) *Scenario {
 		}
 		var t *Node
 		switch k := r.Intn(10); {
-		case k < 2 && len(trees) > 0: // same content under a second name
+		case k < 3 && len(trees) > 0: // same content under a second name
 			t = cloneNode(common.Pick(r, trees))
 			if r.Bool() {
 				retime(r, t)
 			}
-		case k < 4: // a plain file
+		case k < 5: // a plain file
 			g := &genCtx{r: r, big: big}
 			t = g.file()
 		default:
@@ -1141,7 +1149,10 @@ func runScenario(sc *Scenario) {
 		if len(run.Samples) < 5 && len(got) > 3 {
 			run.Sample(map[string]any{"name": name, "umask": fmt.Sprintf("%03o", sc.Umask), "preserve": sc.Preserve, "via": sc.Via, "restored": listing(got)})
 		}
-		if !isBenign || hasSpecialBits(it.Tree) {
+		if hasSpecialBits(it.Tree) {
+			run.Count("tree-with-setuid/setgid/sticky")
+		}
+		if !isBenign {
 			continue
 		}
 		want := expectTree(it.Tree, umask, sc.Preserve)
@@ -1177,6 +1188,8 @@ func compareTrees(id, name string, sc *Scenario, want, got map[string]obs, fail 
 			if k == "." && !sc.Preserve && g.mode == 0o777&^uint32(sc.Umask) {
 				// the directory itself is pre-created with 0777 &^ umask; its recorded mode is not applied
 				fail(id, "root-mode", fmt.Sprintf("%q: the directory itself is restored with mode %o (0777 minus umask %03o), added with %o", name, g.mode, sc.Umask, w.mode|0))
+			} else if sc.Preserve && w.mode&0o7000 != 0 && g.mode == w.mode&^0o7000 {
+				fail(id, "preserve-special-bits", fmt.Sprintf("%q: %q has mode %o, added with %o: PreservePermissions lost setuid/setgid/sticky", name, k, g.mode, w.mode))
 			} else {
 				fail(id, "mode", fmt.Sprintf("%q: %q has mode %o, want %o (umask %03o preserve=%v)", name, k, g.mode, w.mode, sc.Umask, sc.Preserve))
 			}
